@@ -4,10 +4,10 @@ cd /verif
 mkdir -p work
 for spec in "$@"; do
   name=${spec%%:*}; checks=${spec#*:}; checks=${checks//,/ }
-  [ -f /tmp/seeded-out/$name/meta.json ] || { echo "SKIP $name (no meta.json)" >> work/seedbatch.log; continue; }
+  [ -f ${SEEDOUT:-/tmp/seeded-out}/$name/meta.json ] || { echo "SKIP $name (no meta.json)" >> work/seedbatch.log; continue; }
   [ -f /verif/seeded/$name/meta.json ] && { echo "DONE-ALREADY $name" >> work/seedbatch.log; continue; }
   echo "=== $name ($checks) $(date +%H:%M:%S)" >> work/seedbatch.log
-  tools/seedeval.py /tmp/seeded-out/$name $checks >> work/seedbatch.log 2>&1
+  tools/seedeval.py ${SEEDOUT:-/tmp/seeded-out}/$name $checks >> work/seedbatch.log 2>&1
   git -C /repo checkout -- . 2>/dev/null
 done
 echo "BATCH-END $(date +%H:%M:%S)" >> work/seedbatch.log
